@@ -610,7 +610,8 @@ def parse_traits(mod_text):
                     continue
                 pn, pt = p.split(":", 1)
                 params.append((pn.strip(), pt.strip()))
-            fns.append((fm.group(1), params, fm.group(3).strip() if fm.group(3) else None, has_self))
+            ret = fm.group(3).strip() if fm.group(3) else None
+            fns.append((fm.group(1), params, None if ret == "()" else ret, has_self))
         out[m.group(1)] = fns
     return out
 
